@@ -26,6 +26,9 @@ type CConfig struct {
 	NoHooks bool    `json:"no_hooks,omitempty"`
 	Yield   int     `json:"yield,omitempty"`
 	Faults  []Fault `json:"faults,omitempty"`
+	// NoHandlers: the client has neither OnNotify nor OnCallback, so requests
+	// from the peer have nowhere to go (and must still never complete a call).
+	NoHandlers bool `json:"no_handlers,omitempty"`
 }
 
 // ReplyItem is one member of a record the scripted peer sends.
@@ -240,6 +243,12 @@ func (w *cworld) render(it ReplyItem) string {
 		return fmt.Sprintf(`{"jsonrpc":"2.0","method":"snote","params":{"n":%d}}`, it.N)
 	case "callback":
 		return fmt.Sprintf(`{"jsonrpc":"2.0","id":"cb%d","method":"scall","params":{"n":%d}}`, it.N, it.N)
+	case "sameidreq":
+		// a request from the peer that happens to carry the id of one of the
+		// client's own calls (a server numbers its callbacks 1, 2, 3 ... too)
+		return fmt.Sprintf(`{"jsonrpc":"2.0","id":%s,"method":"scall","params":{"n":%d}}`, id, it.N)
+	case "sameidnote":
+		return fmt.Sprintf(`{"jsonrpc":"2.0","id":%s,"method":"snote"}`, id)
 	}
 	return "null"
 }
@@ -502,6 +511,9 @@ func RunClient(t *testing.T, sc CScenario) (h *CHistory) {
 				}
 				w.log(CEvent{Kind: "onstop", Class: class, Err: err.Error()})
 			},
+		}
+		if sc.Cfg.NoHandlers {
+			opts.OnNotify, opts.OnCallback = nil, nil
 		}
 		w.cli = jrpc2.NewClient(cc, opts)
 		w.settle()
